@@ -80,6 +80,7 @@ class _CallCap(Exception):
 
 
 KINDS = ['returned', 'IndexError', 'stream-exhausted', 'call-cap', 'other-exception']
+SMA_CAP = 1.0e4         # a run whose sma passes this is cut as well (sampling there takes forever)
 CALL_CAP = 250          # fit_isophote calls per fit_image run; the model's fuel is 400 per loop
 
 
@@ -118,7 +119,7 @@ def run_fit_image(image, geom_args, kwargs, script=None, minit=10, record_steps=
     class RecEllipse(ell.Ellipse):
         def fit_isophote(self, sma, *a, **kw):
             mi = a[2] if len(a) > 2 else kw.get('minit', fit.DEFAULT_MINIT)
-            if len(calls) >= CALL_CAP:
+            if len(calls) >= CALL_CAP or sma > SMA_CAP:
                 raise _CallCap()
             calls.append((float(sma), bool(kw.get('noniterate', False)),
                           bool(kw.get('going_inwards', False)), mi == 2 * minit))
@@ -234,6 +235,9 @@ def gen_sched(rng):
     stream = []
     style = rng.choice(['good', 'mixed', 'fail-late', 'bad'])
     for k in range(n):
+        if k == 0 and rng.random() < 0.6:
+            stream.append((0, True))                # most runs get past the very first fit
+            continue
         if adv:
             stream.append((rng.choice([-2, -1, 0, 1, 2, 3, 4, 5]), rng.random() < 0.7))
             continue
@@ -583,7 +587,7 @@ def run(ctx):
     terms, meta = [], []
 
     # ---- scripted schedule cases ------------------------------------------------
-    n_script = 260 if quick else 2500
+    n_script = 500 if quick else 4000
     for _ in range(n_script):
         p = gen_sched(ctx.rng)
         obs = run_sched(p)
@@ -617,7 +621,7 @@ def run(ctx):
 
     _t(ctx, 'scripted')
     # ---- real fits ----------------------------------------------------------------
-    n_real = 22 if quick else 150
+    n_real = 40 if quick else 300
     all_steps = []
     for j in range(len(PINNED_REAL) + n_real):
         if j < len(PINNED_REAL):
@@ -817,6 +821,8 @@ def replay(obj):
         bad = [m for _, m in sched_oracle(p, obs)] if sched_hyps(p, stream) else []
         if not obs['untouched']:
             bad.append('image modified')
+        if obs['kind'] == 4:
+            bad.append('fit_image raised ' + str(obs['exc']))
         if mode == 'real' and obs['kind'] == 0:
             bad += [str(b) for b in fixed_honoured(p, obs)]
             bad += [str(g) for g in recovery(p, obs)[1]]
